@@ -347,17 +347,24 @@ Fixpoint dtree_eqb (a b : dtree) {struct a} : bool :=
        end) l m
   | _, _ => false
   end.
+(* observed values are compared with their Python type: True is not 1 in a snapshot *)
+Definition num_eqb (a b : num) : bool :=
+  match a, b with
+  | NInt x, NInt y | NHalf x, NHalf y => Z.eqb x y
+  | NBool x, NBool y => Bool.eqb x y
+  | _, _ => false
+  end.
 Definition aval_eqb (a b : aval) : bool :=
   match a, b with
   | AStr x, AStr y => str_eqb x y
-  | AInt x, AInt y => Z.eqb x y
+  | ANum x, ANum y => num_eqb x y
   | ADate x, ADate y | ALevel x, ALevel y | AStatus x, AStatus y => N.eqb x y
   | AList x, AList y => list_eqb str_eqb x y
   | AUnsup, AUnsup => true
   | _, _ => false
   end.
 Definition stval_eqb (a b : stval) : bool :=
-  match a, b with SStr x, SStr y => str_eqb x y | SInt x, SInt y => Z.eqb x y | _, _ => false end.
+  match a, b with SStr x, SStr y => str_eqb x y | SNum x, SNum y => num_eqb x y | SNone, SNone => true | _, _ => false end.
 Definition pair_eqb {A B} (ea : A -> A -> bool) (eb : B -> B -> bool) (x y : A * B) : bool :=
   ea (fst x) (fst y) && eb (snd x) (snd y).
 Definition ls_eqb (a b : option str * option str * option str) : bool :=
